@@ -12,8 +12,10 @@ ELF  every file of the C43 corpus (mc/elfcorpus.py) is loaded with vm_load_elf (
 Oracle (expected values are read from the *file bytes* with struct, never from the loader's objects)
   contents     for every section with a non-zero virtual size / every PT_LOAD segment:
                vm.get_mem(va, vsize) == file[offset : offset+min(raw, vsize)] + zeros   (before the imports are patched)
-  permission   every VM page that intersects the section/segment has PAGE_WRITE iff the header asks for it
-               (IMAGE_SCN_MEM_WRITE / PF_W)
+  permission   PE: every VM page that intersects the section has PAGE_WRITE iff the header asks for it
+               (IMAGE_SCN_MEM_WRITE). ELF, per 4K page: a page holding a byte of a PT_LOAD with PF_W is writable; a page
+               of a PT_LOAD without PF_W is not, unless that segment shares a 4K page with a writable one (the corpus has
+               files linked with -z noseparate-code / -Ttext -Tdata whose data segment starts in the last text page)
   imports      every slot the loader says it resolved (libs.lib_imp2dstad) and, for PE, every slot of the model's
                import list holds an address a with libs.fad2info[a] == (library base, function) and
                libs.fad2cname[a] == canon_libname_libfunc(library, function)
@@ -270,7 +272,7 @@ def check_elf(name, load_base):
     et = {1: "REL", 2: "EXEC", 3: "DYN"}.get(t["ehdr"]["type"], "other")
     cls = "elf%d%s-%s" % (t["bits"], "le" if t["end"] == "<" else "be", et)
     case = {"k": "elf", "file": name, "sha256": ent["sha256"], "base": load_base}
-    st = {"outcome": None, "segments": 0, "w_pages": 0, "ro_pages": 0, "slots": 0}
+    st = {"outcome": None, "segments": 0, "w_pages": 0, "ro_pages": 0, "slots": 0, "shared_4k_pages": 0}
     base_sig = "elf:%s:%s" % ("base0" if load_base == 0 else "rebased", cls)
     vs = []
 
@@ -312,16 +314,49 @@ def check_elf(name, load_base):
             k = next(j for j in range(len(want)) if got[j] != want[j])
             bad("contents:%s:%s" % ("file-data" if k < p["filesz"] else "zero-padding", skel),
                 "PT_LOAD %d at %#x: byte +%#x is %r, expected %r (filesz %#x, memsz %#x)" % (i, va, k, got[k:k + 8], want[k:k + 8], p["filesz"], p["memsz"]))
-        wanted_w = bool(p["flags"] & PF_W)
-        for (a, b, acc) in pages_over(pages, va, va + p["memsz"]):
-            if acc & PAGE_WRITE:
-                st["w_pages"] += 1
-            else:
-                st["ro_pages"] += 1
-            if bool(acc & PAGE_WRITE) != wanted_w:
-                perm_bad("elf:permission:%s:ET_%s" % ("writable-but-header-read-only" if acc & PAGE_WRITE else "read-only-but-header-writable", et),
-                    "PT_LOAD %d (p_flags %#x) lies in VM page [%#x, %#x) whose access is %d" % (i, p["flags"], a, b, acc))
-                break
+    # permissions, judged per 4K page: a page some byte of which belongs to a writable PT_LOAD must be writable; a page
+    # of a non-writable PT_LOAD must not be, unless that segment shares a 4K page with a writable one (such a segment
+    # may be mapped either way: the loader merges the pages of segments that touch)
+    def pages4k(p):
+        lo = (p["vaddr"] + load_base) & ~0xFFF
+        hi = (p["vaddr"] + load_base + max(p["memsz"], 1) + 0xFFF) & ~0xFFF
+        return range(lo, hi, 0x1000)
+
+    live = [p for p in loads if p["memsz"]]
+    wpages = set(x for p in live if p["flags"] & PF_W for x in pages4k(p))
+    ropages = set(x for p in live if not p["flags"] & PF_W for x in pages4k(p))
+    st["shared_4k_pages"] = len(wpages & ropages)
+
+    def access_at(addr):
+        for (a, b, acc) in pages:
+            if a <= addr < b:
+                return acc
+        return None
+
+    for i, p in enumerate(loads):
+        if p["memsz"] == 0:
+            continue
+        mine = list(pages4k(p))
+        if p["flags"] & PF_W:
+            for x in mine:
+                acc = access_at(x if x >= p["vaddr"] + load_base else p["vaddr"] + load_base)
+                st["w_pages" if (acc or 0) & PAGE_WRITE else "ro_pages"] += 1
+                if acc is not None and not acc & PAGE_WRITE:
+                    shared = "sharing-a-page-with-a-read-only-segment" if x in ropages else "alone-in-its-pages"
+                    perm_bad("elf:permission:read-only-but-header-writable:%s:ET_%s" % (shared, et),
+                             "PT_LOAD %d (p_flags %#x, %#x..%#x) asks for write access but its 4K page %#x is mapped with access %d"
+                             % (i, p["flags"], p["vaddr"] + load_base, p["vaddr"] + load_base + p["memsz"], x, acc))
+                    break
+        else:
+            touches_writable = any(x in wpages for x in mine)
+            for x in mine:
+                acc = access_at(x if x >= p["vaddr"] + load_base else p["vaddr"] + load_base)
+                st["w_pages" if (acc or 0) & PAGE_WRITE else "ro_pages"] += 1
+                if acc is not None and acc & PAGE_WRITE and not touches_writable:
+                    perm_bad("elf:permission:writable-but-header-read-only:ET_%s" % et,
+                             "PT_LOAD %d (p_flags %#x) shares no 4K page with a writable segment but its page %#x is mapped with access %d"
+                             % (i, p["flags"], x, acc))
+                    break
     if not loads:
         st["outcome"] = "no-loadable-segment"
         return vs, st
@@ -532,7 +567,7 @@ def _shard(args):
     def account(vs, st, prefix):
         res["n"] += 1
         _bump(res["outcomes"], prefix + ":" + str(st["outcome"]))
-        for k in ("sections", "segments", "w_pages", "ro_pages", "slots", "vsize0"):
+        for k in ("sections", "segments", "w_pages", "ro_pages", "slots", "vsize0", "shared_4k_pages"):
             if k in st:
                 _bump(res["tot"], prefix + "_" + k, st[k])
         if st.get("sections") or st.get("segments"):
